@@ -473,6 +473,7 @@ type Contract struct {
 	Ensures    []*Clause
 	Invariants map[int][]*Clause
 	LoopMods   map[int][]string
+	Tag        string // `func NAME #tag`: a second verification of the same function
 	RepeatIf   map[int][]*Clause // loop N: repeat-only-if E — checked at every back edge, in the state at the end of the iteration
 	Asserts    []*Clause
 	Safety     map[string][]string // property -> classes ("*" = all)
@@ -598,6 +599,12 @@ func loadContractFile(cs *ContractSet, path, pkgPath string) error {
 			cur = &Contract{Pkg: pkgPath, Func: name, External: kw == "external", Invariants: map[int][]*Clause{}, LoopMods: map[int][]string{},
 				Safety: map[string][]string{}, Props: map[string]bool{}, Options: map[string]string{}, File: path}
 			key := pkgPath + "::" + name
+			if len(fs) > 2 && strings.HasPrefix(fs[2], "#") {
+				// `func NAME #tag`: a second, independent verification of NAME (e.g. in the other integer mode). Callers
+				// still see the untagged contract; the tag only makes the key (and the obligation names) distinct.
+				key += fs[2]
+				cur.Tag = fs[2]
+			}
 			if kw == "external" {
 				key = name
 			}
